@@ -861,7 +861,7 @@ class Tree:
         :raises ValueError: If 0 < position or position >=
             :attr:`TreeSequence.sequence_length`.
         """
-        if position < 0 or position >= self.tree_sequence.sequence_length:
+        if not (0 <= position < self.tree_sequence.sequence_length):
             raise ValueError("Position out of bounds")
         self._ll_tree.seek(position)
 
